@@ -302,6 +302,11 @@ pub fn g7() -> Vec<FamGrammar> {
     out
 }
 
+/// Strings left out of a family's box: for G8 (sentences of six tokens over nine) the strings of more than three tokens that
+/// do not begin with one of the two tokens every sentence begins with - they are erroneous from the first token on, and the
+/// shorter ones already cover "wrong first token".
+pub fn skip_string(f: &FamGrammar, ix: &[usize]) -> bool { f.kind == "G8" && ix.len() > 3 && ix[0] > 1 }
+
 /// All token sequences over the alphabet of length <= n, shortest first.
 pub fn token_strings(alpha: usize, n: usize) -> Vec<Vec<usize>> {
     let mut out = vec![vec![]];
